@@ -9,7 +9,7 @@
    flow of the worker closure and of the main-loop completion code is NOT written here: it is a
    parameter ([tables]), instantiated with the paths regenerated from cmd/run.go on every run
    (gen/C20_ReloadPaths.v).  No proofs in this file. *)
-From Coq Require Import List NArith Bool Arith.
+From Coq Require Import List NArith ZArith Bool Arith.
 From Dae Require Import C20_Spec.
 Import ListNotations.
 
@@ -73,12 +73,67 @@ Definition expand_eff (e : eff) : list prim :=
 
 Definition expand (p : list eff) : list prim := flat_map expand_eff p.
 
+(* Shape of the timer of waitForControlPlaneDrain, as found in the source: the condition on maxWait under
+   which `case <-timer.C` can ever fire. *)
+Inductive guard :=
+| GAlways        (* timer := time.NewTimer(maxWait), unconditionally (a non-positive duration fires at once) *)
+| GNonNeg        (* armed when maxWait >= 0 *)
+| GPositive      (* armed only when maxWait > 0 *)
+| GNever.        (* no timeout case / shape not understood *)
+
+Definition timer_armed (g : guard) (w : Z) : bool :=
+  match g with
+  | GAlways => true
+  | GNonNeg => (0 <=? w)%Z
+  | GPositive => (0 <? w)%Z
+  | GNever => false
+  end.
+(* armed for every budget remainingReloadRetirementBudget can return *)
+Definition guard_total (g : guard) : bool := match g with GAlways | GNonNeg => true | _ => false end.
+
+(* remainingReloadRetirementBudget(startedAt, budget); elapsed = time.Since(startedAt) *)
+Definition remaining_budget (budget : Z) (elapsed : N) (zero_start : bool) : Z :=
+  if (budget <=? 0)%Z then 0%Z
+  else if zero_start then budget
+  else let r := (budget - Z.of_N elapsed)%Z in if (r <? 0)%Z then 0%Z else r.
+
+(* What the environment decides about one retirement: the --abort flag, whether old and new generation
+   share a dialer, how long ago the reload was requested, and how many sessions the old generation has. *)
+Record ret_params := {
+  rp_abort : bool; rp_overlap : bool; rp_elapsed : N; rp_zero_start : bool; rp_sessions : nat
+}.
+Definition default_params : ret_params :=
+  {| rp_abort := false; rp_overlap := false; rp_elapsed := 0%N; rp_zero_start := false; rp_sessions := 0 |}.
+
+(* the goroutine of startControlPlaneRetirement *)
+Inductive rt_pc :=
+| RtInit                       (* spawned; before retireControlPlaneConnections *)
+| RtWait (deadline : option N) (* in the select of waitForControlPlaneDrain; Some t: timer fires at t *)
+| RtTail                       (* connections drained or aborted; oldCancel/Close; before close(done) *)
+| RtDone.                      (* done closed *)
+Record retirement := {
+  rt_pc_of : rt_pc;
+  rt_abort : bool; rt_overlap : bool;
+  rt_budget : Z;               (* drainBudget computed by startControlPlaneRetirement *)
+  rt_sessions : nat;           (* ActiveSessionCount() of the old generation *)
+  rt_idle : bool;              (* DrainIdleCh() closed *)
+  rt_cancelled : bool          (* retireCtx cancelled by the next startControlPlaneRetirement *)
+}.
+Definition set_rt_pc (pc : rt_pc) (r : retirement) : retirement :=
+  Build_retirement pc (rt_abort r) (rt_overlap r) (rt_budget r) (rt_sessions r) (rt_idle r) (rt_cancelled r).
+Definition rt_cancel (r : retirement) : retirement :=
+  Build_retirement (rt_pc_of r) (rt_abort r) (rt_overlap r) (rt_budget r) (rt_sessions r) (rt_idle r) true.
+Definition rt_drain (r : retirement) : retirement :=
+  Build_retirement (rt_pc_of r) (rt_abort r) (rt_overlap r) (rt_budget r) 0 true (rt_cancelled r).
+
 (* What the translator supplies. *)
 Record tables := {
   t_worker : list (list eff);   (* paths of one iteration of the reload worker loop *)
   t_main : list (list eff);     (* paths of the main loop's `case <-runStateChanges` body when reloading is set *)
   t_cap : nat;                  (* capacity of the request channel *)
-  t_quiesce : N                 (* reloadFailureQuiesce, ns *)
+  t_quiesce : N;                (* reloadFailureQuiesce, ns *)
+  t_timer_guard : guard;        (* when waitForControlPlaneDrain arms its drain timer *)
+  t_budget_total : Z            (* reloadTotalSwitchBudget, ns *)
 }.
 
 (* program counter of a signal thread inside tryQueueReloadRequest *)
@@ -114,62 +169,70 @@ Record state := {
   dones : list bool;
   releasers : list rstate;
   exited : bool;
-  trace : list event
+  trace : list event;
+  rets : list retirement;
+  next_ret : ret_params
 }.
 
 Definition set_pending (x : bool) (s : state) : state :=
-  Build_state x (active s) (reloading s) (supp s) (until s) (now s) (queue s) (progress s) (sigs s) (w_prog s) (handoff s) (m_prog s) (pend_ret s) (dones s) (releasers s) (exited s) (trace s).
+  Build_state x (active s) (reloading s) (supp s) (until s) (now s) (queue s) (progress s) (sigs s) (w_prog s) (handoff s) (m_prog s) (pend_ret s) (dones s) (releasers s) (exited s) (trace s) (rets s) (next_ret s).
 
 Definition set_active (x : bool) (s : state) : state :=
-  Build_state (pending s) x (reloading s) (supp s) (until s) (now s) (queue s) (progress s) (sigs s) (w_prog s) (handoff s) (m_prog s) (pend_ret s) (dones s) (releasers s) (exited s) (trace s).
+  Build_state (pending s) x (reloading s) (supp s) (until s) (now s) (queue s) (progress s) (sigs s) (w_prog s) (handoff s) (m_prog s) (pend_ret s) (dones s) (releasers s) (exited s) (trace s) (rets s) (next_ret s).
 
 Definition set_reloading (x : bool) (s : state) : state :=
-  Build_state (pending s) (active s) x (supp s) (until s) (now s) (queue s) (progress s) (sigs s) (w_prog s) (handoff s) (m_prog s) (pend_ret s) (dones s) (releasers s) (exited s) (trace s).
+  Build_state (pending s) (active s) x (supp s) (until s) (now s) (queue s) (progress s) (sigs s) (w_prog s) (handoff s) (m_prog s) (pend_ret s) (dones s) (releasers s) (exited s) (trace s) (rets s) (next_ret s).
 
 Definition set_supp (x : nat) (s : state) : state :=
-  Build_state (pending s) (active s) (reloading s) x (until s) (now s) (queue s) (progress s) (sigs s) (w_prog s) (handoff s) (m_prog s) (pend_ret s) (dones s) (releasers s) (exited s) (trace s).
+  Build_state (pending s) (active s) (reloading s) x (until s) (now s) (queue s) (progress s) (sigs s) (w_prog s) (handoff s) (m_prog s) (pend_ret s) (dones s) (releasers s) (exited s) (trace s) (rets s) (next_ret s).
 
 Definition set_until (x : N) (s : state) : state :=
-  Build_state (pending s) (active s) (reloading s) (supp s) x (now s) (queue s) (progress s) (sigs s) (w_prog s) (handoff s) (m_prog s) (pend_ret s) (dones s) (releasers s) (exited s) (trace s).
+  Build_state (pending s) (active s) (reloading s) (supp s) x (now s) (queue s) (progress s) (sigs s) (w_prog s) (handoff s) (m_prog s) (pend_ret s) (dones s) (releasers s) (exited s) (trace s) (rets s) (next_ret s).
 
 Definition set_now (x : N) (s : state) : state :=
-  Build_state (pending s) (active s) (reloading s) (supp s) (until s) x (queue s) (progress s) (sigs s) (w_prog s) (handoff s) (m_prog s) (pend_ret s) (dones s) (releasers s) (exited s) (trace s).
+  Build_state (pending s) (active s) (reloading s) (supp s) (until s) x (queue s) (progress s) (sigs s) (w_prog s) (handoff s) (m_prog s) (pend_ret s) (dones s) (releasers s) (exited s) (trace s) (rets s) (next_ret s).
 
 Definition set_queue (x : list bool) (s : state) : state :=
-  Build_state (pending s) (active s) (reloading s) (supp s) (until s) (now s) x (progress s) (sigs s) (w_prog s) (handoff s) (m_prog s) (pend_ret s) (dones s) (releasers s) (exited s) (trace s).
+  Build_state (pending s) (active s) (reloading s) (supp s) (until s) (now s) x (progress s) (sigs s) (w_prog s) (handoff s) (m_prog s) (pend_ret s) (dones s) (releasers s) (exited s) (trace s) (rets s) (next_ret s).
 
 Definition set_progress (x : pcode * msg) (s : state) : state :=
-  Build_state (pending s) (active s) (reloading s) (supp s) (until s) (now s) (queue s) x (sigs s) (w_prog s) (handoff s) (m_prog s) (pend_ret s) (dones s) (releasers s) (exited s) (trace s).
+  Build_state (pending s) (active s) (reloading s) (supp s) (until s) (now s) (queue s) x (sigs s) (w_prog s) (handoff s) (m_prog s) (pend_ret s) (dones s) (releasers s) (exited s) (trace s) (rets s) (next_ret s).
 
 Definition set_sigs (x : list sigpc) (s : state) : state :=
-  Build_state (pending s) (active s) (reloading s) (supp s) (until s) (now s) (queue s) (progress s) x (w_prog s) (handoff s) (m_prog s) (pend_ret s) (dones s) (releasers s) (exited s) (trace s).
+  Build_state (pending s) (active s) (reloading s) (supp s) (until s) (now s) (queue s) (progress s) x (w_prog s) (handoff s) (m_prog s) (pend_ret s) (dones s) (releasers s) (exited s) (trace s) (rets s) (next_ret s).
 
 Definition set_w_prog (x : list prim) (s : state) : state :=
-  Build_state (pending s) (active s) (reloading s) (supp s) (until s) (now s) (queue s) (progress s) (sigs s) x (handoff s) (m_prog s) (pend_ret s) (dones s) (releasers s) (exited s) (trace s).
+  Build_state (pending s) (active s) (reloading s) (supp s) (until s) (now s) (queue s) (progress s) (sigs s) x (handoff s) (m_prog s) (pend_ret s) (dones s) (releasers s) (exited s) (trace s) (rets s) (next_ret s).
 
 Definition set_handoff (x : nat) (s : state) : state :=
-  Build_state (pending s) (active s) (reloading s) (supp s) (until s) (now s) (queue s) (progress s) (sigs s) (w_prog s) x (m_prog s) (pend_ret s) (dones s) (releasers s) (exited s) (trace s).
+  Build_state (pending s) (active s) (reloading s) (supp s) (until s) (now s) (queue s) (progress s) (sigs s) (w_prog s) x (m_prog s) (pend_ret s) (dones s) (releasers s) (exited s) (trace s) (rets s) (next_ret s).
 
 Definition set_m_prog (x : list prim) (s : state) : state :=
-  Build_state (pending s) (active s) (reloading s) (supp s) (until s) (now s) (queue s) (progress s) (sigs s) (w_prog s) (handoff s) x (pend_ret s) (dones s) (releasers s) (exited s) (trace s).
+  Build_state (pending s) (active s) (reloading s) (supp s) (until s) (now s) (queue s) (progress s) (sigs s) (w_prog s) (handoff s) x (pend_ret s) (dones s) (releasers s) (exited s) (trace s) (rets s) (next_ret s).
 
 Definition set_pend_ret (x : option nat) (s : state) : state :=
-  Build_state (pending s) (active s) (reloading s) (supp s) (until s) (now s) (queue s) (progress s) (sigs s) (w_prog s) (handoff s) (m_prog s) x (dones s) (releasers s) (exited s) (trace s).
+  Build_state (pending s) (active s) (reloading s) (supp s) (until s) (now s) (queue s) (progress s) (sigs s) (w_prog s) (handoff s) (m_prog s) x (dones s) (releasers s) (exited s) (trace s) (rets s) (next_ret s).
 
 Definition set_dones (x : list bool) (s : state) : state :=
-  Build_state (pending s) (active s) (reloading s) (supp s) (until s) (now s) (queue s) (progress s) (sigs s) (w_prog s) (handoff s) (m_prog s) (pend_ret s) x (releasers s) (exited s) (trace s).
+  Build_state (pending s) (active s) (reloading s) (supp s) (until s) (now s) (queue s) (progress s) (sigs s) (w_prog s) (handoff s) (m_prog s) (pend_ret s) x (releasers s) (exited s) (trace s) (rets s) (next_ret s).
 
 Definition set_releasers (x : list rstate) (s : state) : state :=
-  Build_state (pending s) (active s) (reloading s) (supp s) (until s) (now s) (queue s) (progress s) (sigs s) (w_prog s) (handoff s) (m_prog s) (pend_ret s) (dones s) x (exited s) (trace s).
+  Build_state (pending s) (active s) (reloading s) (supp s) (until s) (now s) (queue s) (progress s) (sigs s) (w_prog s) (handoff s) (m_prog s) (pend_ret s) (dones s) x (exited s) (trace s) (rets s) (next_ret s).
 
 Definition set_exited (x : bool) (s : state) : state :=
-  Build_state (pending s) (active s) (reloading s) (supp s) (until s) (now s) (queue s) (progress s) (sigs s) (w_prog s) (handoff s) (m_prog s) (pend_ret s) (dones s) (releasers s) x (trace s).
+  Build_state (pending s) (active s) (reloading s) (supp s) (until s) (now s) (queue s) (progress s) (sigs s) (w_prog s) (handoff s) (m_prog s) (pend_ret s) (dones s) (releasers s) x (trace s) (rets s) (next_ret s).
 
 Definition set_trace (x : list event) (s : state) : state :=
-  Build_state (pending s) (active s) (reloading s) (supp s) (until s) (now s) (queue s) (progress s) (sigs s) (w_prog s) (handoff s) (m_prog s) (pend_ret s) (dones s) (releasers s) (exited s) x.
+  Build_state (pending s) (active s) (reloading s) (supp s) (until s) (now s) (queue s) (progress s) (sigs s) (w_prog s) (handoff s) (m_prog s) (pend_ret s) (dones s) (releasers s) (exited s) x (rets s) (next_ret s).
+
+Definition set_rets (x : list retirement) (s : state) : state :=
+  Build_state (pending s) (active s) (reloading s) (supp s) (until s) (now s) (queue s) (progress s) (sigs s) (w_prog s) (handoff s) (m_prog s) (pend_ret s) (dones s) (releasers s) (exited s) (trace s) x (next_ret s).
+
+Definition set_next_ret (x : ret_params) (s : state) : state :=
+  Build_state (pending s) (active s) (reloading s) (supp s) (until s) (now s) (queue s) (progress s) (sigs s) (w_prog s) (handoff s) (m_prog s) (pend_ret s) (dones s) (releasers s) (exited s) (trace s) (rets s) x.
 
 Definition init_state : state :=
-  Build_state false false false 0 0%N 0%N [] (CDone, MsgNone) [] [] 0 [] None [] [] false [].
+  Build_state false false false 0 0%N 0%N [] (CDone, MsgNone) [] [] 0 [] None [] [] false [] [] default_params.
 
 Definition emit (e : event) (s : state) : state := set_trace (e :: trace s) s.
 
@@ -212,6 +275,35 @@ Definition sig_step (T : tables) (s : state) (i : nat) : state :=
       end
   end.
 
+Fixpoint cancel_last (l : list retirement) : list retirement :=
+  match l with
+  | [] => []
+  | [r] => [rt_cancel r]
+  | r :: l' => r :: cancel_last l'
+  end.
+
+(* one step of retirement goroutine d: retireControlPlaneConnections / waitForControlPlaneDrain /
+   close(done).  The only place where it can block is the select of waitForControlPlaneDrain. *)
+Definition ret_step (T : tables) (s : state) (d : nat) : state :=
+  match nth_error (rets s) d with
+  | None => s
+  | Some r =>
+      match rt_pc_of r with
+      | RtInit =>
+          if rt_abort r || negb (rt_overlap r) || Nat.eqb (rt_sessions r) 0
+          then set_rets (upd (rets s) d (set_rt_pc RtTail r)) s
+          else set_rets (upd (rets s) d
+                 (set_rt_pc (RtWait (if timer_armed (t_timer_guard T) (rt_budget r)
+                                     then Some (now s + Z.to_N (rt_budget r))%N else None)) r)) s
+      | RtWait dl =>
+          if rt_cancelled r || rt_idle r || (match dl with Some t => (t <=? now s)%N | None => false end)
+          then set_rets (upd (rets s) d (set_rt_pc RtTail r)) s
+          else s
+      | RtTail => set_rets (upd (rets s) d (set_rt_pc RtDone r)) (set_dones (upd (dones s) d true) s)
+      | RtDone => s
+      end
+  end.
+
 (* one atomic step of a program; returns the state and the steps to be executed next by the same
    agent (clearReloadPending called synchronously by releaseReloadPendingAfterRetirement) *)
 Definition exec_prim (T : tables) (s : state) (p : prim) : state * list prim :=
@@ -224,7 +316,13 @@ Definition exec_prim (T : tables) (s : state) (p : prim) : state * list prim :=
   | PProgress c => (set_progress (c, MsgOther) s, [])
   | PCoalesce => (set_queue [] s, [])
   | PBeginHandoff => (set_handoff (S (handoff s)) (set_reloading true s), [])
-  | PStartRetirement => (set_pend_ret (Some (length (dones s))) (set_dones (dones s ++ [false]) s), [])
+  | PStartRetirement =>
+      (* lastRetirementCancel(); fresh context and done channel; drainBudget computed here; go func *)
+      let p := next_ret s in
+      let r := Build_retirement RtInit (rp_abort p) (rp_overlap p)
+                 (remaining_budget (t_budget_total T) (rp_elapsed p) (rp_zero_start p)) (rp_sessions p) false false in
+      (set_rets (cancel_last (rets s) ++ [r])
+         (set_pend_ret (Some (length (dones s))) (set_dones (dones s ++ [false]) s)), [])
   | PClearPendingRetirement => (set_pend_ret None s, [])
   | PReleaseAfterRetirement =>
       match pend_ret s with
@@ -260,7 +358,10 @@ Inductive action :=
 | AWorker                 (* the worker: next atomic step *)
 | AMainStart (k : nat)    (* the main loop sees reloading set and commits to completion path k *)
 | AMain
-| ARetire (d : nat)       (* retirement goroutine d finishes: close(done) *)
+| ARetire (d : nat)       (* retirement goroutine d: next step *)
+| AEnvRetire (p : ret_params)  (* the environment fixes the circumstances of the next retirement *)
+| ASessionsEnd (d : nat)  (* the old generation of retirement d goes idle *)
+| AAdvance (n : N)        (* n nanoseconds pass *)
 | AReleaser (r : nat)
 | ATick.                  (* one nanosecond passes *)
 
@@ -291,7 +392,13 @@ Definition step (T : tables) (s : state) (a : action) : state :=
       | [] => s
       | prog => let '(s', prog') := prog_step T s prog in set_m_prog prog' s'
       end
-  | ARetire d => set_dones (upd (dones s) d true) s
+  | ARetire d => ret_step T s d
+  | AEnvRetire p => set_next_ret p s
+  | ASessionsEnd d => match nth_error (rets s) d with
+                      | Some r => set_rets (upd (rets s) d (rt_drain r)) s
+                      | None => s
+                      end
+  | AAdvance n => set_now (now s + n)%N s
   | AReleaser r => rel_step T s r
   | ATick => set_now (now s + 1)%N s
   end.
@@ -359,7 +466,7 @@ Definition main_path_ok (p : list eff) : bool :=
 Definition tables_ok (T : tables) : bool :=
   forallb worker_path_ok (t_worker T) && forallb main_path_ok (t_main T)
   && negb (Nat.eqb (length (t_worker T)) 0) && negb (Nat.eqb (length (t_main T)) 0)
-  && Nat.leb 1 (t_cap T).
+  && Nat.leb 1 (t_cap T) && guard_total (t_timer_guard T).
 
 (* ---------------------------------------------------------------------------------------------
    Who has custody of an accepted, unreleased request (used to state mutual exclusion). *)
@@ -420,9 +527,10 @@ Definition call_take (s : state) : state * option bool :=
 Definition call_coalesce (s : state) (req : bool) : state * bool :=
   (set_queue [] s, last (queue s) req).
 
-(* close of retirement channel d followed by every goroutine waiting on it running to completion *)
-Definition call_retire (T : tables) (s : state) (d : nat) : state :=
-  let s1 := set_dones (upd (dones s) d true) s in
+(* the harness lets [wait] nanoseconds pass for retirement goroutine d (sessions possibly draining
+   meanwhile), then every goroutine waiting on a closed channel runs to completion *)
+Definition call_retire (T : tables) (s : state) (d : nat) (wait : N) : state :=
+  let s1 := fold_left (step T) [ARetire d; AAdvance wait; ARetire d; ARetire d] s in
   fold_left (fun st r => fold_left (fun st' _ => rel_step T st' r) [0;1;2;3;4] st)
             (seq 0 (length (releasers s1))) s1.
 
@@ -431,7 +539,7 @@ Definition same_core (s s' : state) : Prop :=
   pending s' = pending s /\ active s' = active s /\ reloading s' = reloading s /\ supp s' = supp s
   /\ until s' = until s /\ now s' = now s /\ queue s' = queue s /\ w_prog s' = w_prog s
   /\ handoff s' = handoff s /\ m_prog s' = m_prog s /\ pend_ret s' = pend_ret s /\ dones s' = dones s
-  /\ releasers s' = releasers s /\ exited s' = exited s.
+  /\ releasers s' = releasers s /\ exited s' = exited s /\ rets s' = rets s /\ next_ret s' = next_ret s.
 
 (* a small table and three schedules for the non-vacuity example *)
 Definition demo_tables : tables :=
@@ -440,13 +548,19 @@ Definition demo_tables : tables :=
      t_main := [ [ESetReloading false; EProgress CDone; EFinishOk];
                  [ESetReloading false; EProgress CError; EFinishFail] ];
      t_cap := 1;
-     t_quiesce := 0x4A817C800%N |}.
+     t_quiesce := 0x4A817C800%N;
+     t_timer_guard := GAlways;
+     t_budget_total := 0x2540BE400%Z |}.
 
 Definition demo_schedule_mid : list action :=
   [ASignal false; ASig 0; ASig 0; ASig 0; ASignal true; ASig 1; ASig 1;
    AWorkerTake 1; AWorker; AWorker; AWorker; AWorker; AWorker; AWorker; AMainStart 0].
 Definition demo_schedule_ok : list action :=
-  demo_schedule_mid ++ [AMain; AMain; AMain; AMain; AMain; ARetire 0; AReleaser 0; AReleaser 0; AReleaser 0; AReleaser 0].
+  demo_schedule_mid ++ [AMain; AMain; AMain; AMain; AMain; ARetire 0; ARetire 0; AReleaser 0; AReleaser 0; AReleaser 0; AReleaser 0].
 Definition demo_schedule_fail : list action :=
   [ASignal false; ASig 0; ASig 0; ASig 0; AWorkerTake 0;
    AWorker; AWorker; AWorker; AWorker; AWorker; AWorker; AWorker; AWorker].
+
+(* the schedule under which retirement goroutine d has to finish: it gets to run, k nanoseconds pass,
+   it runs twice more *)
+Definition retire_schedule (d : nat) (k : N) : list action := [ARetire d; AAdvance k; ARetire d; ARetire d].
